@@ -1,4 +1,5 @@
 import PandoraModel.Properties.C08
+import PandoraModel.Properties.C08C07
 open Pandora.C08
 #print axioms swapName_invol
 #print axioms exec_swap
@@ -17,3 +18,5 @@ open Pandora.C08
 #print axioms mirror
 #print axioms right_eq_mirror_left
 #print axioms initStore_mirror
+#print axioms crossCheckFacts_of_model
+#print axioms mirror_with_crossCheck_model
